@@ -26,6 +26,11 @@ func VH_C16_roundrobin(n int) {
 	vassert(ChooseRoundRobin(v, n) == l, "matches-choose")
 	if v != ^hotstuff.View(0) {
 		vcover("successor")
+		// deciding the parity of the view first splits the query into two the solvers answer
+		// quickly for every n (for n = 2*odd the undivided query stalls every back end)
+		if v&1 == 1 {
+			vcover("odd-view")
+		}
 		next := a.GetLeader(v + 1)
 		want := l + 1
 		if int(l) == n {
